@@ -18,6 +18,7 @@ class LeanEmitter(Evaluator):
         self._fresh = 0
         self.indent = 0
         self.cfg_name = "cfg"
+        self.env_name = "env"
 
     # ---- naming ----
     def is_record(self, aname):
@@ -59,20 +60,31 @@ class LeanEmitter(Evaluator):
             out.append("")
         return "\n".join(out)
 
+    GROUPS = (("cfg", "Cfg"), ("env", "Env"))
+
     def emit_cfg(self):
-        abst = [f for f in self.reg.fns.values() if f.kind == "abstract"]
-        if not abst:
-            return ""
-        out = ["structure Cfg where"]
-        for f in abst:
-            sig = " → ".join([self.sort(s) for _, s in f.params] + [self.sort(f.ret)])
-            out.append(f"  {f.name} : {sig}")
+        out = []
+        for g, sname in self.GROUPS:
+            abst = [f for f in self.reg.fns.values() if f.kind == "abstract" and f.group == g]
+            if not abst:
+                continue
+            out.append(f"structure {sname} where")
+            for f in abst:
+                sig = " → ".join([self.sort(s) for _, s in f.params] + [self.sort(f.ret)])
+                out.append(f"  {f.name} : {sig}")
+            out.append("")
         return "\n".join(out) + "\n"
+
+    def group_binders(self, name):
+        return "".join(f"({g} : {sname}) " for g, sname in self.GROUPS if self.reg.uses_cfg(name, g))
+
+    def group_args(self, name):
+        return "".join(f" {self.cfg_name if g == 'cfg' else self.env_name}" for g, sname in self.GROUPS if self.reg.uses_cfg(name, g))
 
     def emit_fn(self, f: SpecFn):
         self.indent = 1
         params = " ".join(f"({p} : {self.sort(s)})" for p, s in f.params)
-        cfg = "(cfg : Cfg) " if self.reg.uses_cfg(f.name) else ""
+        cfg = self.group_binders(f.name)
         env = {p: Val(s, p) for p, s in f.params}
         body = self.eval_block(list(f.node.body), env, f)
         doc = f"/-- {f.doc.strip()} -/\n" if f.doc.strip() else ""
@@ -156,11 +168,11 @@ class LeanEmitter(Evaluator):
 
     def b_call(self, f: SpecFn, args, caller):
         if f.kind == "abstract":
-            head = f"{self.cfg_name}.{f.name}"
+            head = f"{self.cfg_name if f.group == 'cfg' else self.env_name}.{f.name}"
         elif f.kind == "prim":
             head = f.lean
         else:
-            head = f.name + (f" {self.cfg_name}" if self.reg.uses_cfg(f.name) else "")
+            head = f.name + self.group_args(f.name)
         return Val(f.ret, "(" + head + "".join(" " + a.v for a in args) + ")")
 
     def pat_text(self, p):
